@@ -70,6 +70,15 @@ pub fn bye<S: Src, V: Visitor, const NS: usize, const L: usize>(s: &mut S, v: &m
     v.visit(s, &b, &c);
 }
 
+/// BYE whose reason starts with a symbolic number of two-byte characters.
+pub fn bye_utf8<S: Src, V: Visitor, const NS: usize, const L: usize>(s: &mut S, v: &mut V, maxpad: u8) {
+    let reason = Text::<L>::draw_utf8(s, L);
+    let c = ByeCfg::<NS, L>::draw_with(s, reason);
+    s.assume(c.padding <= maxpad);
+    let b = c.builder();
+    v.visit(s, &b, &c);
+}
+
 /// BYE with a reason of symbolic length `0..=L`, constant content but 4 symbolic bytes.
 pub fn bye_long<S: Src, V: Visitor, const NS: usize, const L: usize>(s: &mut S, v: &mut V, maxpad: u8) {
     let len = s.upto(L);
